@@ -10,13 +10,33 @@ import (
 	"strings"
 )
 
+// skeletonAll: like skeleton, but every assignment and call is kept (full = true), and select / for / range / defer / go
+// are rendered too.
+var skeletonFull = false
+
+func callOrExpr(e ast.Expr) string {
+	if c, ok := e.(*ast.CallExpr); ok {
+		if fl, ok := c.Fun.(*ast.FuncLit); ok {
+			var inner []string
+			skeleton(fl.Body.List, &inner)
+			return "func(){" + strings.Join(inner, "; ") + "}()"
+		}
+		return exprString(c.Fun) + "(…)"
+	}
+	return exprString(e)
+}
+
 func skeleton(list []ast.Stmt, out *[]string) {
 	for _, s := range list {
 		switch x := s.(type) {
 		case *ast.IfStmt:
 			prefix := "if "
 			for cur := x; cur != nil; {
-				*out = append(*out, prefix+exprString(cur.Cond)+" {")
+				ini := ""
+				if as, ok := cur.Init.(*ast.AssignStmt); ok && len(as.Lhs) == 1 && len(as.Rhs) == 1 {
+					ini = exprString(as.Lhs[0]) + " " + as.Tok.String() + " " + callOrExpr(as.Rhs[0]) + "; "
+				}
+				*out = append(*out, prefix+ini+exprString(cur.Cond)+" {")
 				skeleton(cur.Body.List, out)
 				*out = append(*out, "}")
 				switch el := cur.Else.(type) {
@@ -48,29 +68,122 @@ func skeleton(list []ast.Stmt, out *[]string) {
 				skeleton(cc.Body, out)
 			}
 			*out = append(*out, "}")
+		case *ast.SelectStmt:
+			*out = append(*out, "select {")
+			for _, c := range x.Body.List {
+				cc := c.(*ast.CommClause)
+				switch comm := cc.Comm.(type) {
+				case nil:
+					*out = append(*out, "default:")
+				case *ast.SendStmt:
+					*out = append(*out, "case "+exprString(comm.Chan)+" <- "+callOrExpr(comm.Value)+":")
+				case *ast.ExprStmt:
+					*out = append(*out, "case "+exprString(comm.X)+":")
+				case *ast.AssignStmt:
+					*out = append(*out, "case … := "+exprString(comm.Rhs[0])+":")
+				}
+				skeleton(cc.Body, out)
+			}
+			*out = append(*out, "}")
+		case *ast.ForStmt:
+			c := ""
+			if x.Cond != nil {
+				c = exprString(x.Cond) + " "
+			}
+			*out = append(*out, "for "+c+"{")
+			skeleton(x.Body.List, out)
+			*out = append(*out, "}")
+		case *ast.RangeStmt:
+			*out = append(*out, "for range "+exprString(x.X)+" {")
+			skeleton(x.Body.List, out)
+			*out = append(*out, "}")
+		case *ast.DeferStmt:
+			*out = append(*out, "defer "+callOrExpr(x.Call))
+		case *ast.GoStmt:
+			*out = append(*out, "go "+callOrExpr(x.Call))
+		case *ast.SendStmt:
+			*out = append(*out, exprString(x.Chan)+" <- "+callOrExpr(x.Value))
 		case *ast.AssignStmt:
 			if len(x.Lhs) == 1 && len(x.Rhs) == 1 {
 				l := exprString(x.Lhs[0])
-				if strings.HasPrefix(l, "app.") || strings.HasPrefix(l, "p.") {
-					r := exprString(x.Rhs[0])
-					if c, ok := x.Rhs[0].(*ast.CallExpr); ok {
-						r = exprString(c.Fun) + "(…)"
-					}
-					*out = append(*out, l+" = "+r)
+				if skeletonFull || strings.HasPrefix(l, "app.") || strings.HasPrefix(l, "p.") {
+					*out = append(*out, l+" "+x.Tok.String()+" "+callOrExpr(x.Rhs[0]))
 				}
+			} else if skeletonFull {
+				var ls, rs []string
+				for _, e := range x.Lhs {
+					ls = append(ls, exprString(e))
+				}
+				for _, e := range x.Rhs {
+					rs = append(rs, callOrExpr(e))
+				}
+				*out = append(*out, strings.Join(ls, ", ")+" "+x.Tok.String()+" "+strings.Join(rs, ", "))
 			}
 		case *ast.ExprStmt:
 			if c, ok := x.X.(*ast.CallExpr); ok {
 				fn := exprString(c.Fun)
 				if !strings.HasPrefix(fn, "log.") {
-					*out = append(*out, fn+"(…)")
+					*out = append(*out, callOrExpr(c))
 				}
 			}
 		case *ast.ReturnStmt:
-			*out = append(*out, "return")
+			var rs []string
+			for _, e := range x.Results {
+				rs = append(rs, callOrExpr(e))
+			}
+			if skeletonFull && len(rs) > 0 {
+				*out = append(*out, "return "+strings.Join(rs, ", "))
+			} else {
+				*out = append(*out, "return")
+			}
+		case *ast.BranchStmt:
+			*out = append(*out, strings.ToLower(x.Tok.String()))
 		}
 	}
 }
+
+type skelSpec struct{ file, recv, name, lean string }
+
+func genSkeletons() {
+	specs := []skelSpec{
+		{"daemon/internal/newrelic/collector/client.go", "limitClient", "Execute", "limitExecute"},
+		{"daemon/internal/newrelic/processor.go", "Processor", "CleanExit", "cleanExit"},
+		{"daemon/internal/newrelic/listener.go", "", "ReadMessage", "readMessage"},
+		{"daemon/internal/newrelic/listener.go", "MessageWriter", "Write", "messageWrite"},
+		{"daemon/internal/newrelic/processor.go", "Processor", "processAppInfo", "processAppInfo"},
+		{"daemon/internal/newrelic/processor.go", "Processor", "processTxnData", "processTxnData"},
+		{"daemon/internal/newrelic/processor.go", "Processor", "processSpanBatch", "processSpanBatch"},
+		{"daemon/internal/newrelic/infinite_tracing/trace_observer.go", "TraceObserver", "QueueBatch", "queueBatch"},
+	}
+	var b strings.Builder
+	b.WriteString("namespace Gen.Skeleton\n\n")
+	skeletonFull = true
+	defer func() { skeletonFull = false }()
+	for _, sp := range specs {
+		_, f := parseFile(sp.file)
+		var sk []string
+		if f != nil {
+			if fn := findFunc(f, sp.recv, sp.name); fn != nil {
+				skeleton(fn.Body.List, &sk)
+			} else {
+				failf("%s: %s.%s not found", sp.file, sp.recv, sp.name)
+			}
+		}
+		fmt.Fprintf(&b, "/-- skeleton of `%s.%s` (%s): conditions, assignments, calls (logging left out), channel operations, returns -/\ndef %s : List String := [\n", sp.recv, sp.name, sp.file, sp.lean)
+		for i, l := range sk {
+			sep := ","
+			if i == len(sk)-1 {
+				sep = ""
+			}
+			fmt.Fprintf(&b, "  %q%s\n", l, sep)
+		}
+		b.WriteString("]\n\n")
+	}
+	b.WriteString("end Gen.Skeleton\n")
+	writeLean("Skeleton", b.String())
+}
+
+func init() { extraGens = append(extraGens, genSkeletons) }
 
 func genLifecycle() {
 	_, f := parseFile("daemon/internal/newrelic/processor.go")
